@@ -407,6 +407,9 @@ class Interp:
                             break
                 ob.model = self.extract_model(model)
                 ob.detail = f"path decisions={self.explorer.decisions[: self.explorer.pos]}"
+                if os.environ.get("PYVC_DEBUG_PC"):
+                    print("REFUTED", kind, text[:80]); print("GOAL", z3.simplify(goal))
+                    for f_ in self.pc: print("  PC", str(z3.simplify(f_))[:300])
             return False
         if ob.status == "discharged":
             ob.status = "unknown"
@@ -860,6 +863,11 @@ class Interp:
     def ev_IfExp(self, node):
         c = self.truth(self.ev(node.test))
         if self.st.spec:
+            cs = z3.simplify(c) if z3.is_expr(c) else c
+            if z3.is_true(cs):          # a condition that is concrete on this path (e.g. `x if x else ..`
+                return self.ev(node.body)    # for an Optional that is None here): only that branch exists
+            if z3.is_false(cs):
+                return self.ev(node.orelse)
             a, b = self.ev(node.body), self.ev(node.orelse)
             return self.merge(c, a, b)
         if self.decide(c):
@@ -1121,6 +1129,21 @@ class Interp:
             L = self.st.lists[container.oid]
             if L.items is not None:
                 return sor(*[self.equal(item, x, node) for x in L.items])
+            sp = L.spec
+            if os.environ.get("PYVC_DEBUG"): print("IN-LIST", sp, item, L.len)
+            if isinstance(sp, str) and (sp == "ty" or sp.startswith("ref:")) and hasattr(item, "t") \
+                    and z3.is_expr(item.t):
+                # elements compared by identity (GraphQL type objects, AST nodes: no __eq__ beyond
+                # identity for types; nodes are only looked up by identity here): exact membership
+                j = z3.Int(self.namer.fresh("j"))
+                saved = self.st.spec
+                self.st.spec = True
+                try:
+                    x = self.world.list_item(self, container, L, j, node)
+                finally:
+                    self.st.spec = saved
+                if hasattr(x, "t") and z3.is_expr(x.t) and x.t.sort() == item.t.sort() and sp == "ty":
+                    return z3.Exists([j], z3.And(0 <= j, j < L.len, x.t == item.t))
             return z3.Bool(self.namer.fresh("in_list"))
         r = self.world.contains_ext(self, container, item, node)
         if r is not None:
@@ -2195,6 +2218,8 @@ class Interp:
                 self.setitem(obj, self.ev(tgt.slice), m, node)
                 return
         v = self.ev(node.value)
+        if os.environ.get("PYVC_DEBUG") and isinstance(node.targets[0], ast.Name) and node.targets[0].id == os.environ["PYVC_DEBUG"]:
+            print("ASSIGN", node.targets[0].id, repr(v), getattr(v, "t", None), getattr(getattr(v, "is_none", None), "sexpr", lambda: None)())
         for t in node.targets:
             self.assign(t, v, node)
 
@@ -2209,6 +2234,18 @@ class Interp:
 
     def assign(self, target, v, node):
         if isinstance(target, ast.Name):
+            c = self.contract if self.depth == 0 else None
+            if c is not None and getattr(v, "abstract_set", False):
+                lspec = c.locals.get(target.id)
+                if isinstance(lspec, tuple) and lspec and lspec[0] == "nameset":
+                    # a local `set()` of names declared in the contract: modelled exactly
+                    # (membership array, empty at creation) instead of the abstract set
+                    from . import namesets
+                    s = namesets.VNameSet(self.fresh_oid(), lspec[1])
+                    namesets.mem_of(self, s)
+                    self.st.ghost[("nameset", s.oid)] = z3.K(sym.I, z3.BoolVal(False))
+                    self.assume(namesets.measure(self, s) >= 0)
+                    v = s
             self.st.env[target.id] = v
             return
         if isinstance(target, (ast.Tuple, ast.List)) and any(
@@ -2476,6 +2513,15 @@ class Interp:
             g0 = c.dyn_call_ghost[0]
             self.ghost_get(g0)
             st.ghost[g0] = VInt(z3.Int(self.namer.fresh("ghost_" + g0)))
+        # local name sets that the loop body adds to / removes from: membership unknown at the cut
+        from . import namesets as _ns
+        for x in calls:
+            f = x.func
+            if isinstance(f, ast.Attribute) and isinstance(f.value, ast.Name) \
+                    and f.attr in ("add", "discard", "remove", "clear", "update"):
+                sv = st.env.get(f.value.id)
+                if isinstance(sv, _ns.VNameSet):
+                    _ns.havoc(self, sv)
         # declared specs of scalar locals: havoc to a fresh value of that spec
         if c is not None:
             for lname, lspec in c.locals.items():
